@@ -392,7 +392,7 @@ class Ctx:
 
     def fresh(self, base):
         self.counter += 1
-        return '%s_%d' % (base, self.counter)
+        return '%s_%d' % (re.sub(r'\W+', '_', base).strip('_'), self.counter)
 
 
 def unify(a, b):
@@ -1137,6 +1137,7 @@ FRAGMENTS = [
 
 PRELUDE = '''(* GENERATED by tools/rs2v.py from %s/*.rs -- do not edit *)
 From Coq Require Import ZArith List Bool.
+From WebP Require Import Gen.Tables.
 Import ListNotations.
 Open Scope Z_scope.
 Open Scope bool_scope.
@@ -1210,6 +1211,21 @@ def gen_kernels(srcdir, allconsts):
             out.append('(* UNTRANSLATED %s: %s: %s *)\n' % (gname, type(ex).__name__, str(ex).replace('*)', '* )')))
             continue
         out.append('(* %s :: %s (imperative kernel: array cells as parameters, final cells as result) *)\n%s' % (fname, kd['fn'], text))
+        translated.append(gname)
+    for kd in rs2v_imp.IMP_FRAGMENTS:
+        fname, gname = kd['file'], kd['gname']
+        path = pathlib.Path(srcdir) / fname
+        fns = fns_by_file.setdefault(fname, {})
+        kernels = imp_kernels_by_file.setdefault(fname, {})
+        try:
+            src = strip_comments(path.read_text())
+            ctx = Ctx(fns, dict(allconsts.get(path.stem, {})))
+            text = rs2v_imp.translate_fragment_imp(src, kd, ctx, kernels)
+        except Exception as ex:
+            untranslated.append((gname, '%s: %s' % (type(ex).__name__, ex)))
+            out.append('(* UNTRANSLATED %s: %s: %s *)\n' % (gname, type(ex).__name__, str(ex).replace('*)', '* )')))
+            continue
+        out.append('(* %s :: %s, block containing `%s` (places read = parameters, places written = result list) *)\n%s' % (fname, kd['fn'], kd['marker'], text))
         translated.append(gname)
     return '\n'.join(out), translated, untranslated
 
